@@ -5,28 +5,32 @@ _TOC = "crates/jxl-frame/src/data/toc.rs"; _TOCM = "kani/jxl-frame/toc.rs"
 _TOC_FNS = ["Toc::parse", "Toc::bookmark", "Toc::total_byte_size", "Toc::is_single_entry",
             "Toc::group_index_bitstream_order", "FrameHeader::num_groups", "FrameHeader::num_lf_groups",
             "Bitstream::read_u32", "Bitstream::zero_pad_to_byte"]
+_TOC_ASSUMED = (
+    "ASSUMED (kani::stub, see the module header): (a) enough data -- Bitstream::read_bits = its own body with the end-of-data Err pruned, so the end-of-data outcome of "
+    "Toc::parse is NOT covered; (b) permuted tables: jxl_coding::read_permutation = its contract 'consumes some bits, returns Err or SOME permutation P of 0..n' -- all P explored; "
+    "(c) jxl_coding::read_clusters = 'bits 1,00 -> one cluster' (the real one builds a HashSet: > 400 s on 4 concrete bytes), Decoder::parse/begin/finalize otherwise REAL on one "
+    "fixed 10-bit single-symbol prefix-code header; (d) unpermuted tables: Decoder::parse = assume(false), i.e. permuted_toc == 0 is the precondition. ")
 _TOC_CONTRACT = (
-    "requires a frame header in the ranges Frame::parse validates (built with default_with_context, concrete size / pass count); "
-    "ASSUMED contract of jxl_coding::read_permutation (kani::stub): consumes 0..=9 bits and returns Err or SOME permutation P of 0..n -- all explored; "
-    "real Decoder::parse/begin/finalize on one fixed 11-bit single-symbol prefix-code header; every other byte of the TOC symbolic. "
-    "ensures: Ok iff both paddings are zero and the permutation was read; read_permutation called iff permuted_toc, with (size = n, skip = 0); "
+    "requires a frame header in the ranges Frame::parse validates (built with default_with_context, concrete size / pass count). " + _TOC_ASSUMED +
+    "ensures: Ok iff both paddings are zero (and the permutation was read); read_permutation called iff permuted_toc, with (size = n, skip = 0); "
     "parsing stops at the byte boundary after the n-th entry; groups[i].kind is the standard's section order; with s[k] = k-th U32(u(10), 1024+u(14), 17408+u(22), 4211712+u(30)) "
     "of the bit view: groups[i].size == s[P(i)], groups[i].offset == end_of_TOC + sum(s[..P(i)]) (cumulative in BITSTREAM order), total_size == sum(s); "
     "original_to_bitstream == P, bitstream_to_original[P(i)] == i, mutually inverse, both empty if not permuted; group_index_bitstream_order(kind_i) == P(i); "
-    "bookmark() == end_of_TOC; the table invariant toc_inv holds (maps empty or mutually inverse permutations; sections contiguous in bitstream order; "
-    "total_size == sum of sizes) -- toc.accessors_* continue from that invariant")
+    "bookmark() == end_of_TOC; is_single_entry() iff n == 1. I.e. the result is toc_model(n, P, s, end_of_TOC), from which toc.accessors_* continue")
+_ALL = "all entry encodings (4 selectors, all values)"
+_ONE = "ONE concrete TOC byte string (sizes 5, 2000, 20000, 5000000, 7: all four U32 forms)"
 for _h, _shape, _tier, _to in [
-        ("parse_single_plain_contract", "1 entry (1x1 frame, 1 pass), not permuted", "quick", 600),
-        ("parse_single_permuted_contract", "1 entry, permuted_toc set (the only permutation of one entry)", "quick", 600),
-        ("parse_two_passes_plain_contract", "5 entries (1 group, 2 passes), not permuted", "quick", 600),
-        ("parse_two_passes_permuted_contract", "5 entries (1 group, 2 passes), every permutation of the 5 entries", "quick", 900),
-        ("parse_two_groups_plain_contract", "5 entries (2 groups: 257x1 frame, 1 pass), not permuted", "thorough", 1200),
-        ("parse_two_groups_permuted_contract", "5 entries (2 groups: 257x1 frame, 1 pass), every permutation", "thorough", 1200),
-        ("parse_two_by_two_permuted_contract", "7 entries (2 groups, 2 passes), every permutation of the 7 entries", "thorough", 1200)]:
-    K("toc." + _h.replace("_contract", ""), ["C14", "C01"], "jxl-frame", _TOC, _TOCM, _h,
-      "bounded:" + _shape + "; all entry encodings (4 selectors, all values), enough bytes offered (no end-of-data outcome)",
-      _TOC_FNS, _TOC_CONTRACT, tier=_tier, timeout=_to)
-
+        ("parse_single_plain", "1 entry (1x1 frame, 1 pass), not permuted; " + _ALL, "quick", 600),
+        ("parse_single_permuted", "1 entry, permuted_toc set (the only permutation of one entry), read_permutation consuming 125..=134 bits (every alignment of the padding); " + _ALL, "quick", 900),
+        ("parse_two_passes_plain_concrete", "5 entries (1 group, 2 passes), not permuted; " + _ONE, "quick", 600),
+        ("parse_permutation_error", "5 entries, read_permutation returns Err: Toc::parse returns Err(Decoder(InvalidPermutation))", "quick", 600),
+        ("parse_two_passes_permuted_concrete", "5 entries (1 group, 2 passes), every permutation of the 5 entries; " + _ONE, "thorough", 1200),
+        ("parse_two_groups_permuted_concrete", "5 entries (2 groups: 257x1 frame, 1 pass), every permutation; " + _ONE, "thorough", 1200),
+        ("parse_two_passes_plain", "5 entries (1 group, 2 passes), not permuted; " + _ALL, "thorough", 1200),
+        ("parse_two_groups_plain", "5 entries (2 groups: 257x1 frame, 1 pass), not permuted; " + _ALL, "thorough", 1200),
+        ("parse_two_passes_permuted", "5 entries (1 group, 2 passes), every permutation of the 5 entries; " + _ALL, "thorough", 1200)]:
+    K("toc." + _h, ["C14", "C01"], "jxl-frame", _TOC, _TOCM, _h + "_contract",
+      "bounded:" + _shape + "; enough bytes offered (no end-of-data outcome)", _TOC_FNS, _TOC_CONTRACT, tier=_tier, timeout=_to)
 for _h, _shape, _tier, _to in [("1", "1 entry, permuted_toc set or not", "quick", 300), ("5_plain", "5 entries (1 LF group, 2 groups), not permuted", "quick", 300),
                                ("5_permuted", "5 entries, every permutation", "quick", 600), ("7_permuted", "7 entries (2 groups x 2 passes), every permutation", "thorough", 1200)]:
     K("toc.accessors_" + _h, ["C14", "C01"], "jxl-frame", _TOC, _TOCM, "toc_accessors_contract_" + _h,
@@ -36,3 +40,47 @@ for _h, _shape, _tier, _to in [("1", "1 entry, permuted_toc set or not", "quick"
       "original_to_bitstream = P, bitstream_to_original = P^-1 or both empty, total_size = sum(s)); ensures bookmark() == base; iter_bitstream_order() yields exactly n items, "
       "the k-th = (kind of the section with P(i) == k, base + sum(s[..k]), s[k]) -- contiguous from the end of the TOC, sizes adding up to total_byte_size(); "
       "adjust_offsets(g <= base) yields toc_model(n, P, s, base - g): every offset rebased, sizes / kinds / maps / total unchanged", tier=_tier, timeout=_to)
+
+# ---- jxl-oxide/src/aux_box.rs: aux box collection ---------------------------------------------------------------------
+_AB = "crates/jxl-oxide/src/aux_box.rs"; _ABM = "kani/jxl-oxide/aux_box.rs"
+_AB_FNS = ["AuxBoxList::handle_event", "AuxBoxList::finalize", "AuxBoxList::eof", "AuxBoxList::first_of_type", "AuxBoxList::first_exif", "AuxBoxList::first_xml",
+           "AuxBoxList::jbrd", "AuxBoxReader::ensure_raw", "AuxBoxReader::feed_data", "AuxBoxReader::finalize", "AuxBoxReader::data", "RawExif::new"]
+_AB_ASSUMED = ("ASSUMED: the jbrd payload parser (Jbrd::feed_bytes -> jxl_jbr) is replaced by 'returns Ok or Err' (kani::stub; needed because the box type is symbolic); "
+               "Brotli-compressed boxes are excluded (brotli_compressed: false). Proof in legs cut at the state in_progress(list, finished boxes, ty, last_box, bytes) "
+               "(asserted on the real state by ab.box_start / ab.box_more_data, constructed by ab.box_more_data / ab.box_end / ab.box_eof) -- see the module header for why. ")
+K("ab.box_start", ["C10", "C01"], "jxl-oxide", _AB, _ABM, "box_start_contract",
+  "bounded:a fresh list, or a list holding one finished box of 2 bytes; all types except jbrd, both last_box flags", _AB_FNS,
+  _AB_ASSUMED + "requires a list between two boxes; event AuxBoxStart{ty != jbrd, brotli_compressed: false, last_box: any}; ensures Ok and in_progress(list, same finished boxes, ty, last_box, no bytes); "
+  "while the box is read: not listed, its type reported Decoding (or the payload of an earlier finished box of the same type), other absent types NotFound iff last_box", timeout=600)
+K("ab.box_more_data", ["C10", "C09", "C01"], "jxl-oxide", _AB, _ABM, "box_more_data_contract",
+  "bounded:bytes so far 0 / 3 / 1, new slice 3 / 2 / 3 bytes, none or one finished box; all types except jbrd, all byte values; unbounded over the number of data events by induction",
+  _AB_FNS, _AB_ASSUMED + "requires in_progress(list, finished, ty, last_box, prefix); event AuxBoxData(ty, slice); ensures Ok and in_progress(list, finished, ty, last_box, prefix ++ slice): "
+  "the collected payload is the concatenation of all data slices in order, wherever the parser cut them", timeout=600)
+_AB_FIN = (_AB_ASSUMED + "requires in_progress(list, none or one finished box, ty, last_box, bytes) with 0, 5 or 2 payload bytes; event: %s; ensures Ok; exactly one more box (ty, bytes), finished, "
+           "appended after the earlier one which keeps type and payload; the FIRST box of a type answers first_of_type; first_xml / first_exif return that payload (Exif: big-endian offset + rest, "
+           "Err if < 4 bytes or offset outside); absent types and jbrd: NotFound iff the list is closed (eof, or the box was announced as last) else Decoding; reader reset for the next box; jbrd reader untouched")
+K("ab.box_end", ["C10", "C09", "C01"], "jxl-oxide", _AB, _ABM, "box_end_contract",
+  "bounded:payload 0 / 5 bytes on an empty list, 2 bytes after one finished box; all types except jbrd, all byte values, both last_box flags", _AB_FNS, _AB_FIN % "AuxBoxEnd(ty)", timeout=600)
+K("ab.box_eof", ["C10", "C09", "C01"], "jxl-oxide", _AB, _ABM, "box_eof_contract",
+  "bounded:payload 0 / 5 bytes on an empty list, 2 bytes after one finished box; all types except jbrd, all byte values, both last_box flags", _AB_FNS,
+  _AB_FIN % "eof() WITHOUT AuxBoxEnd (last_box false: a sized box ending exactly at the end of the file, whose AuxBoxEnd the parser emits only lazily; last_box true: a box running to the end of the file)", timeout=600)
+K("ab.no_box", ["C10", "C01"], "jxl-oxide", _AB, _ABM, "no_box_contract", "complete", _AB_FNS,
+  "fresh list: every query Decoding; after NoMoreAuxBox, after eof(), after Codestream + eof(): every query NotFound (first_exif Ok(NotFound)), list empty and closed; "
+  "Codestream events change nothing; a second eof() changes nothing")
+for _h, _st in [("init", "reader Init, no finished box"), ("raw", "reader Raw(2 bytes) after one finished box")]:
+    K("ab.step_total_" + _h, ["C01", "C10"], "jxl-oxide", _AB, _ABM, "step_total_%s_contract" % _h,
+      "bounded:one event from every state with " + _st + " (any current type or none, any last_box); unbounded over histories by induction on Inv",
+      _AB_FNS + ["Jbrd::finalize"],
+      _AB_ASSUMED + "Inv := reader in progress is (Init | Raw, not done), every listed box is finished. new() satisfies Inv; for each of AuxBoxStart(any type, not Brotli), AuxBoxData(any type, 1 byte), "
+      "AuxBoxEnd(any type), NoMoreAuxBox, Codestream, eof(): the call returns Ok or Err (AuxBoxEnd / eof of a jbrd box without data: Err) and does not panic, Inv holds again, at most one box is "
+      "delivered, all four queries are total. So impossible orders (data or end without start, start after start, anything after eof) are errors or accepted, never a panic: ensure_raw's panic!() "
+      "and feed_data's unreachable!() need NoData / Brotli, which Inv excludes", timeout=600)
+K("ab.exif_new", ["C10", "C01"], "jxl-oxide", _AB, _ABM, "exif_new_contract",
+  "bounded:Exif payloads of 0, 3, 4, 5 and 6 bytes, all byte values", ["RawExif::new", "RawExif::tiff_header_offset", "RawExif::payload"],
+  "Ok iff len >= 4 and the big-endian u32 offset < len - 4; then tiff_header_offset() is that value and payload() the bytes after it; no panic")
+K("ab.refeed_after_failed_finalisation", ["C01"], "jxl-oxide", _AB, _ABM, "refeed_after_failed_finalisation",
+  "bounded:the one history AuxBoxStart{Exif, brotli_compressed: true}; AuxBoxEnd(Exif) -> Err; AuxBoxStart{xml, brotli_compressed: false}",
+  ["AuxBoxList::handle_event", "AuxBoxList::finalize", "AuxBoxReader::ensure_brotli", "AuxBoxReader::finalize", "AuxBoxReader::ensure_raw"],
+  "ASSUMED: the external Brotli stream decoder, given no input, asks for more input (kani::stub of BrotliDecompressStream; the native run shows the same). "
+  "ensures every handle_event call returns Ok or Err. EXPECTED TO FAIL on the unrepaired tree: the failed finalisation leaves current_box = (Brotli, not done) and the next plain "
+  "AuxBoxStart reaches ensure_raw's panic!() (aux_box.rs:59); native reproduction through JxlImage::feed_bytes with a 33-byte file: module header", timeout=900)
